@@ -28,7 +28,9 @@ EXHAUSTIVE = {'quick': False, 'thorough': False}
 CONFIGS = [{'hold': 180, 'idle_hold': 30, 'connect_retry': 60}, {'hold': 9, 'idle_hold': 5, 'connect_retry': 60},
            {'hold': 30, 'idle_hold': 1, 'connect_retry': 40}, {'hold': 180, 'idle_hold': 30, 'connect_retry': 30},
            {'hold': 0, 'idle_hold': 30, 'connect_retry': 60}, {'hold': 180, 'idle_hold': 0, 'connect_retry': 60},
-           {'hold': 90, 'idle_hold': 0, 'connect_retry': 5}, {'hold': 3, 'idle_hold': 2, 'connect_retry': 1}]
+           {'hold': 90, 'idle_hold': 0, 'connect_retry': 5}, {'hold': 3, 'idle_hold': 2, 'connect_retry': 1},
+           # every peer message of the history arrives in 3 TCP segments / octet by octet
+           {'hold': 180, 'idle_hold': 30, 'connect_retry': 60, 'seg': 3}, {'hold': 9, 'idle_hold': 5, 'connect_retry': 60, 'seg': 'bytes'}]
 PEER_HOLD = 90
 _fresh = {}
 
